@@ -34,12 +34,18 @@ Definition c17case_id (c : c17case) : N := match c with CST i _ _ _ _ | CVOL i _
 
 (* the model's reader size is irrelevant (C15); 64 keeps evaluation cheap while
    still forcing buffer growth on long lines *)
+(* datagramReadBufferSize of dgramstream.go; [dgram_lines_spec] is what
+   C17_dgram_lines_cut proves [dgram_lines] (the concrete reader, one datagram
+   per Read) to be, and it is evaluated instead because the concrete reader
+   with a 128 KiB buffer costs seconds per datagram under vm_compute *)
+Definition dgram_buffer : nat := N.to_nat 131072.
+
 Definition c17case_ok (c : c17case) : bool :=
   match c with
   | CST _ _ cs out ended => stream_ok 64 cs out && ended
   | CVOL _ _ nd lpd fill got ended =>
       list_eqb bytes_eqb
-        (dgram_lines 4096 (map (fun j => (0%nat, datagram lpd fill j)) (seq 0 nd)))
+        (dgram_lines_spec dgram_buffer (map (fun j => (0%nat, datagram lpd fill j)) (seq 0 nd)))
         (expand fill got) && ended
   end.
 
